@@ -440,6 +440,10 @@ func (w *binaryWriter) Finish() error {
 		if w.err = w.emit(seq); w.err != nil {
 			return w.err
 		}
+
+		// Buffer the next batch as well: its values may add symbols, and the table that
+		// defines them has to precede them in the output.
+		w.bufs.push(&datagram{})
 	}
 
 	return nil
